@@ -784,6 +784,31 @@ LinearIndexType = Union[int, np.integer, slice]
 IndexType = Union[LinearIndexType, Sequence[int], np.ndarray]
 
 
+def tt_index_to_int(indices):
+    """Present the integers of an index key in the platform integer type.
+
+    Keys may carry numpy integers of any width and signedness (scalars, slice
+    bounds, index arrays, subscript arrays). Mixing narrow or unsigned types
+    with python integers or int64 overflows or promotes to floating point, so
+    they are converted up front. Other objects are returned as they are.
+    """
+    if isinstance(indices, np.integer):
+        return int(indices)
+    if isinstance(indices, np.ndarray):
+        if indices.dtype.kind in "iu" and indices.dtype != np.dtype(np.intp):
+            return indices.astype(np.intp)
+        return indices
+    if isinstance(indices, tuple):
+        return tuple(tt_index_to_int(index) for index in indices)
+    if isinstance(indices, slice):
+        return slice(
+            tt_index_to_int(indices.start),
+            tt_index_to_int(indices.stop),
+            tt_index_to_int(indices.step),
+        )
+    return indices
+
+
 def get_index_variant(indices: IndexType) -> IndexVariant:
     """Decide on intended indexing variant. No correctness checks.
 
